@@ -91,5 +91,44 @@ def assembleAB (dimB : Nat) (table : Nat → List (Nat × Nat × α)) (ψ : Nat 
   let s := y % dimB
   (table (r * dimB + s)).foldr (fun e acc => ψ a e.1 * e.2.2 * conj (ψ b e.2.1) + acc) 0
 
+/-! ### users of the reduction: `entangle/pureb.py`, `maximum_entropy/_internal.py` -/
+
+/-- `PureBosonicExt.forward` (`pureb.py:65-67`): `tmp1 = self.manifold().reshape(self.dimA, -1)` — the parameter vector of
+length `dimA·L` read as the coefficient matrix `ψ[α, i] = v[α·L + i]` (`L` = number of Dicke vectors) -/
+def purebCoeff {α : Type} (L : Nat) (v : Nat → α) (a i : Nat) : α := v (a * L + i)
+
+section users
+variable {α : Type} [Zero α] [Add α] [Mul α] [Conj α]
+
+/-- `dm_torch = partial_trace_ABk_to_AB(tmp1, self.Bij)` -/
+def purebReduce (dimB L : Nat) (table : Nat → List (Nat × Nat × α)) (v : Nat → α) : Nat → Nat → α :=
+  assembleAB dimB table (purebCoeff L v)
+
+/-- `get_partial_trace_ABk_to_AB_index(…, return_tensor=True)` (`dicke.py:146-152`): `Brsab[r,s,i,j] = value` for the triples of
+entry `r·dim+s` (at most one triple per `(i,j)`), zero elsewhere -/
+def tensorOfTable (dimB : Nat) (table : Nat → List (Nat × Nat × α)) (r s i j : Nat) : α :=
+  match (table (r * dimB + s)).find? fun e => e.1 == i && e.2.1 == j with
+  | some e => e.2.2
+  | none => 0
+
+/-- the reduced matrix written with the tensor: `ρ[(a,r),(b,s)] = Σ_{i,j} ψ[a,i]·B[r,s,i,j]·conj ψ[b,j]` -/
+def assembleTensor (dimB L : Nat) (B : Nat → Nat → Nat → Nat → α) (ψ : Nat → Nat → α) (x y : Nat) : α :=
+  sumRange L fun i => sumRange L fun j => ψ (x / dimB) i * B (x % dimB) (y % dimB) i j * conj (ψ (y / dimB) j)
+
+/-- `get_ABk_gellmann_preimage_op(kind='boson')` (`maximum_entropy/_internal.py:144-147`) for one operator `G` on `AB`:
+`einsum(matG[g,a,r,a',s], Brsab[r,s,p,q] → [g,a,p,a',q]).reshape(N0, dimA·L, dimA·L)` -/
+def preimageBoson (dimB L : Nat) (G : Nat → Nat → α) (B : Nat → Nat → Nat → Nat → α) (x y : Nat) : α :=
+  sumRange dimB fun r => sumRange dimB fun s => G ((x / L) * dimB + r) ((y / L) * dimB + s) * B r s (x % L) (y % L)
+
+/-- mask of the register `[A, B_1, …, B_k]` keeping `A` and the copy `B_c` (`c = 1..k`) -/
+def maskAB (k c : Nat) : List Bool := true :: (List.range k).map fun i => i + 1 == c
+
+/-- `get_ABk_gellmann_preimage_op(kind='symmetric')` (`_internal.py:148-160`) before the final `/kext`:
+`Σ_c (G on A ⊗ B_c, identity on the other copies)` -/
+def preimageSymSum (dimA dimB k : Nat) (G : Nat → Nat → α) (x y : Nat) : α :=
+  sumRange k fun c => PT.embedKeep (dimA :: List.replicate k dimB) (maskAB k (c + 1)) G x y
+
+end users
+
 end Dicke
 end Numqi
